@@ -1,6 +1,7 @@
 import Driver.Proto
 import LadimModel.Grid.ComputeW
 import LadimModel.Grid.Fjord
+import LadimModel.Grid.Sample
 namespace Driver
 open Ladim
 
@@ -82,6 +83,29 @@ def hFjordIndex : Handler := do
   let dirs : Fjord.Mat := { fi with val := fun i j => (Fjord.descentDir fi i j : Nat) }
   pure (outMat fi ++ " | " ++ outMat dirs)
 
+/-- `gs.cell n i0 x` -/
+def hGsCell : Handler := do
+  let n ← getN; let i0 ← getI; let x ← getF
+  pure (outI (GridSample.cellIndex n i0 x))
+
+/-- `gs.z2s ncol col* z` -> K A -/
+def hGsZ2s : Handler := do
+  let col ← getList getF; let z ← getF
+  pure s!"{GridSample.z2sK col z} {outF (GridSample.z2sA col z 0.0)}"
+
+def hGsTri : Handler := do
+  let P ← getF; let Q ← getF; let A ← getF
+  let f ← getArr 8
+  pure (outF (GridSample.trilinear P Q A f[0]! f[1]! f[2]! f[3]! f[4]! f[5]! f[6]! f[7]!))
+
+def hGsBil : Handler := do
+  let p ← getF; let q ← getF; let a ← getF; let b ← getF; let c ← getF; let d ← getF
+  pure (outF (GridSample.bilinear p q a b c d))
+
+def hGsVdLevel : Handler := do
+  let nw ← getN; let K ← getN; let A ← getF
+  pure (outI (GridSample.vertdiffLevel nw K A))
+
 def gridHandlers : List (String × Handler) :=
-  [("cw.compute", hComputeW), ("fjord.dilate", hFjordDilate), ("fjord.index", hFjordIndex)]
+  [("cw.compute", hComputeW), ("fjord.dilate", hFjordDilate), ("fjord.index", hFjordIndex), ("gs.cell", hGsCell), ("gs.z2s", hGsZ2s), ("gs.tri", hGsTri), ("gs.bil", hGsBil), ("gs.vdlevel", hGsVdLevel)]
 end Driver
